@@ -59,6 +59,10 @@ def run(ctx):
     sg = [path_sig(p)[1] for p in nonpanic(walk(f))]
     ctx.check("C02-R3", "Headers::get is a map lookup", len(sg) == 1 and "HashMap" in sg[0] and "::get(" in sg[0], "Headers::get changed: %s" % sg, where(f))
 
+    ctx.rule("C02-R6", "what the request is made of: (authority, path ++ ?query) from the URL, fields stored and looked up unchanged")
+    shared.request_from_url(ctx, "C02-R6")
+    shared.headers_store_identity(ctx, "C02-R6")
+
     ctx.rule("C02-R4", "decision mirror")
     shared.connect_response_table(ctx, "C02-R4")
     f = A.find1(r"^wtransport::endpoint::SessionRequest::accept_impl::\{closure#0\}$")
